@@ -14,6 +14,13 @@ type Gen struct {
 	state map[string]interface{}
 	init  map[string]interface{}
 	ops   []Op
+	docs  []varDoc // documents with variables generated so far (re-used verbatim)
+}
+
+type varDoc struct {
+	text  string
+	cells []string
+	lastK int
 }
 
 var words = []string{"x", "y", "z", "w", "hello", ""}
@@ -40,6 +47,13 @@ func NewGen(r *rand.Rand) *Gen {
 	g.state["exp"] = int64(r.Intn(5))
 	g.state["boom"] = int64(0)
 	g.state["r"] = int64(0)
+	g.state["teams"] = g.idList(NumTeams, NumTeams)
+	for i := 0; i < NumTeams; i++ {
+		g.state[fmt.Sprintf("team:%d", i)] = int64(10*(i+1) + r.Intn(5))
+	}
+	for i := 0; i < NumVCells; i++ {
+		g.state[fmt.Sprintf("v:%d", i)] = int64(100*(i+1) + r.Intn(5))
+	}
 	g.state["pick"] = int64(r.Intn(NumItems+2) - 2)
 	if g.state["pick"].(int64) < 0 {
 		g.state["pick"] = int64(-1)
@@ -92,6 +106,9 @@ func (g *Gen) objVal() *ObjVal {
 
 func (g *Gen) idList(universe, max int) []int64 {
 	p := g.r.Perm(universe)
+	if max > universe {
+		max = universe
+	}
 	n := g.r.Intn(max + 1)
 	out := make([]int64, 0, n)
 	for _, x := range p[:n] {
@@ -245,7 +262,8 @@ func (g *Gen) NextOp(prefer []string) int {
 	if len(prefer) > 0 && g.r.Intn(4) != 0 {
 		name = prefer[g.r.Intn(len(prefer))]
 	} else {
-		all := []string{"n", "s", "obj", "items", "kids:0", "kids:1", "plain", "nums", "grid", "ku", "pu", "kulist", "ulist", "slow", "exp", "r", "pick",
+		all := []string{"n", "s", "obj", "items", "kids:0", "kids:1", "plain", "nums", "grid", "ku", "pu", "kulist", "ulist", "slow", "exp", "r", "pick", "teams",
+			fmt.Sprintf("team:%d", g.r.Intn(NumTeams)), fmt.Sprintf("v:%d", g.r.Intn(NumVCells)),
 			fmt.Sprintf("item:%d", g.r.Intn(NumItems))}
 		name = all[g.r.Intn(len(all))]
 	}
@@ -260,7 +278,9 @@ func (g *Gen) OpOn(name string) int {
 	old := g.state[name]
 	var nv interface{}
 	switch {
-	case name == "n" || name == "slow" || name == "exp" || name == "r":
+	case name == "teams":
+		nv = g.editIDs(old.([]int64), NumTeams)
+	case name == "n" || name == "slow" || name == "exp" || name == "r" || strings.HasPrefix(name, "team:") || strings.HasPrefix(name, "v:"):
 		if g.r.Intn(8) == 0 {
 			nv = old // a write that changes nothing
 		} else {
@@ -495,6 +515,38 @@ func (g *Gen) LeaveReturn() ([]int, []string) {
 	return ops, []string{"pick", fmt.Sprintf("item:%d", x)}
 }
 
+// GenVarQuery generates a document WITH VARIABLES - the tag and the cell
+// selector of `vcell` are given as $tag and $k - plus variable values. With
+// probability 2/3 it re-uses, verbatim, the text of a document generated
+// earlier, with a different $k: the same text with different variables must
+// give that subscription's own data.
+func (g *Gen) GenVarQuery(tag string, o QueryOpts) (string, map[string]interface{}, []string) {
+	r := g.r
+	var d *varDoc
+	if len(g.docs) > 0 && r.Intn(3) != 0 {
+		d = &g.docs[r.Intn(len(g.docs))]
+	} else {
+		const marker = "@@TAG@@"
+		q, cells := g.GenQuery(marker, o)
+		head := fmt.Sprintf("{ root(tag: %q) {", marker)
+		if !strings.HasPrefix(q, head) {
+			panic("wsclient: GenVarQuery: unexpected query form " + q)
+		}
+		text := "query Q($tag: string!, $k: int64!) { root(tag: $tag) { vk: vcell(k: $k)" + strings.TrimPrefix(q, head)
+		for i := 0; i < NumVCells; i++ {
+			cells = append(cells, fmt.Sprintf("v:%d", i))
+		}
+		g.docs = append(g.docs, varDoc{text: text, cells: cells, lastK: -1})
+		d = &g.docs[len(g.docs)-1]
+	}
+	k := r.Intn(NumVCells)
+	if k == d.lastK {
+		k = (k + 1) % NumVCells
+	}
+	d.lastK = k
+	return d.text, map[string]interface{}{"tag": tag, "k": float64(k)}, d.cells
+}
+
 // QueryOpts selects optional fields.
 type QueryOpts struct {
 	Boom bool // may select the failing field
@@ -549,6 +601,16 @@ func (g *Gen) GenQuery(tag string, o QueryOpts) (string, []string) {
 			return fld{"pick { id cost }", append([]string{"pick"}, itemCells()...)}
 		},
 		func() fld { return fld{"plain { x y }", []string{"plain"}} },
+		func() fld {
+			cs := []string{"teams"}
+			for i := 0; i < NumTeams; i++ {
+				cs = append(cs, fmt.Sprintf("team:%d", i))
+			}
+			if r.Intn(3) == 0 {
+				return fld{"teams { id members size }", cs}
+			}
+			return fld{"teams { id size }", cs}
+		},
 		func() fld { return fld{"nums", []string{"nums"}} },
 		func() fld { return fld{"grid", []string{"grid"}} },
 		func() fld {
